@@ -355,6 +355,8 @@ def check_scenario(run, sc, gens, driven, mres, ins_cls, en_cls, an, stream, nee
         run.dist("ops_with_variables", str(sc.notes["ops_with_variables"]))
         run.dist("import_carrying_input_fields", str(min(sc.notes.get("scalar_fields", 0), 6)))
         run.dist("scalars_configured", str(sc.notes.get("scalars_configured", 0)))
+        run.dist("subscription_operations", str(sc.notes.get("subscriptions", 0)))
+        run.dist("directive_argument_variables", str(sc.notes.get("directive_argument_variables", 0)))
 
 
 def run_stream(ctx, scs, stream, extra_cfg=None, n_plans=2):
@@ -432,6 +434,8 @@ def run(ctx):
         except RuntimeError:
             run.dist("skipped", "prune generator gave up")
     scs.insert(0, prune_scen.deep_scalar_regression())
+    scs.insert(1, prune_scen.last_operation_enum_regression())
+    scs.insert(2, prune_scen.subscription_input_regression())
     n1 = run_stream(ctx, scs, "prune", n_plans=3 if ctx.thorough else 2)
     mains = []
     for i in range(n_main):
@@ -462,6 +466,7 @@ def run(ctx):
             "type Query { node: Node plain: Int }\n",
         queries="query Plain { plain }\n", config={},
         notes={"shape": "relay-interface-args-regression", "routes": {}, "ops_with_variables": 0, "n_inputs": 1}))
+    cust.insert(2, prune_scen.subscription_input_regression())
     n3 = run_stream(ctx, cust, "custom_ops", extra_cfg={"enable_custom_operations": True}, n_plans=1)
     run.extra["scenarios"] = {"prune": n1, "main": n2, "custom_ops": n3}
     run.exhaustive = False
